@@ -1,6 +1,6 @@
 (* Proofs/SimP.v — lemmas about Model/Sim.v (C13). *)
 From Coq Require Import QArith Qabs Permutation Lqa Lia.
-From CKT Require Import Common.Base Common.QSim Model.Sim.
+From CKT Require Import Common.Base Common.QSim Model.Sim Model.SimTree.
 Close Scope Q_scope.
 
 (* ------------------------------------------------------------------------------------------ *)
@@ -874,6 +874,154 @@ Section SimBound.
   Proof.
     intros Ht s0 p out n E En k. rewrite !lookup_ev.
     apply (simulate_event_bound Ht (indic k) (indic_range k) s0 p out n E En).
+  Qed.
+
+  (* ---- the same bounds with an A-PRIORI loss: at most 2 * tol per measure/reset instruction ----
+     (each live branch loses at most 2 * tol * its weight at a step, and the live weights sum to <= 1) *)
+  Lemma split_event2 phi (r : prog) q kf k (b : branch) X0 X1 : 0 <= tol ->
+    0 <= fst b <= 1 -> 0 <= X0 <= 1 -> 0 <= X1 <= 1 ->
+    ctr phi r (N.lxor k (N.land k kf), (fst b * (1 - p1 (snd b) q), proj (snd b) q false)) == fst b * ((1 - p1 (snd b) q) * X0) ->
+    ctr phi r (N.lor k kf, (fst b * p1 (snd b) q,
+                 if N.eqb kf 0 then flipx (proj (snd b) q true) q else proj (snd b) q true)) == fst b * (p1 (snd b) q * X1) ->
+    fst b * ((1 - p1 (snd b) q) * X0 + p1 (snd b) q * X1) - (2 # 1) * tol * fst b
+      <= qsum (ctr phi r) (split q kf k b) <= fst b * ((1 - p1 (snd b) q) * X0 + p1 (snd b) q * X1).
+  Proof.
+    intros Ht Hb HX0 HX1 H0 H1. destruct (p1_range (snd b) q) as [Hp0 Hp1].
+    unfold split_branch. rewrite qsum_app.
+    set (P := p1 (snd b) q) in *. set (pb := fst b) in *.
+    destruct (mul01 (1 - P) X0 ltac:(lra) HX0) as [Y0a Y0b]. destruct (mul01 P X1 Hp0 HX1) as [Y1a Y1b].
+    destruct (mul01 _ pb Y0a Hb) as [A0a A0b]. destruct (mul01 _ pb Y1a Hb) as [A1a A1b].
+    assert (E0 : pb * ((1 - P) * X0) == (1 - P) * X0 * pb) by ring.
+    assert (E1 : pb * (P * X1) == P * X1 * pb) by ring.
+    assert (Es : pb * ((1 - P) * X0 + P * X1) == (1 - P) * X0 * pb + P * X1 * pb) by ring.
+    assert (Tn : 0 <= tol * pb) by (apply Qmult_le_0_compat; lra).
+    assert (T0 : 1 - P <= tol -> (1 - P) * X0 * pb <= tol * pb) by (intros; apply Qmult_le_compat_r; lra).
+    assert (T1 : P <= tol -> P * X1 * pb <= tol * pb) by (intros; apply Qmult_le_compat_r; lra).
+    set (A0 := (1 - P) * X0 * pb) in *. set (A1 := P * X1 * pb) in *.
+    set (Y0 := (1 - P) * X0) in *. set (Y1 := P * X1) in *. set (TP := tol * pb) in *.
+    assert (ET : (2 # 1) * tol * pb == (2 # 1) * TP) by (unfold TP; ring).
+    rewrite Es, ET.
+    destruct (isclose0 tol (1 - P)) eqn:Z0, (isclose0 tol P) eqn:Z1; cbn [qsum];
+      try (apply isclose0_small in Z0; [specialize (T0 Z0)|lra]); try (apply isclose0_small in Z1; [specialize (T1 Z1)|lra]);
+      rewrite ?H0, ?H1, ?E0, ?E1; split; lra.
+  Qed.
+
+  Lemma split_event_measure2 phi (r : prog) q c kb : 0 <= tol -> (forall k, 0 <= phi k <= 1) -> 0 <= bprob kb <= 1 ->
+    ctr phi (PMeasure q c :: r) kb - (2 # 1) * tol * bprob kb
+      <= qsum (ctr phi r) (split q (N.shiftl 1 (N.of_nat c)) (fst kb) (snd kb)) <= ctr phi (PMeasure q c :: r) kb.
+  Proof.
+    intros Ht Hphi Hb. destruct kb as [k b]. cbn [fst snd]. unfold bprob in *; cbn [fst snd] in *.
+    unfold contrib at 1 4. cbn [fst snd path_law]. rewrite ev_app, !ev_scale.
+    apply split_event2; auto; try apply path_ev_range; auto; unfold contrib; cbn [fst snd].
+    - rewrite k0_clearbit. ring.
+    - rewrite shiftl1_nonzero, k1_setbit. ring.
+  Qed.
+
+  Lemma split_event_reset2 phi (r : prog) q kb : 0 <= tol -> (forall k, 0 <= phi k <= 1) -> 0 <= bprob kb <= 1 ->
+    ctr phi (PReset q :: r) kb - (2 # 1) * tol * bprob kb
+      <= qsum (ctr phi r) (split q 0%N (fst kb) (snd kb)) <= ctr phi (PReset q :: r) kb.
+  Proof.
+    intros Ht Hphi Hb. destruct kb as [k b]. cbn [fst snd]. unfold bprob in *; cbn [fst snd] in *.
+    unfold contrib at 1 4. cbn [fst snd path_law]. rewrite ev_app, !ev_scale.
+    apply split_event2; auto; try apply path_ev_range; auto; unfold contrib; cbn [fst snd].
+    - rewrite k0_reset. ring.
+    - rewrite k1_reset. cbn [N.eqb]. ring.
+  Qed.
+
+  Lemma step_event2 phi (r r' : prog) q kf (d d1 : dict) : 0 <= tol -> NoDup (keys d) -> step q kf d = Some d1 ->
+    (forall kb, In kb (branches d) -> 0 <= bprob kb) -> mass (branches d) <= 1 ->
+    (forall kb, 0 <= bprob kb <= 1 ->
+       ctr phi r' kb - (2 # 1) * tol * bprob kb <= qsum (ctr phi r) (split q kf (fst kb) (snd kb)) <= ctr phi r' kb) ->
+    qsum (ctr phi r') (branches d) - (2 # 1) * tol <= qsum (ctr phi r) (branches d1) <= qsum (ctr phi r') (branches d).
+  Proof.
+    intros Ht ND E Hpos Hm Hsplit.
+    destruct (step_ok _ p1 proj flipx tol q kf d ND) as [d1' [E1 [_ [P1 _]]]].
+    rewrite E in E1; inversion E1; subst d1'; clear E1.
+    assert (Hb : forall kb, In kb (branches d) -> 0 <= bprob kb <= 1).
+    { intros kb HI. split; [now apply Hpos|]. apply Qle_trans with (mass (branches d)); [|assumption].
+      apply (qsum_In_le bprob); assumption. }
+    rewrite pending_insert_flat in P1.
+    assert (Hd1 : qsum (ctr phi r) (branches d1) == qsum (fun kb => qsum (ctr phi r) (split q kf (fst kb) (snd kb))) (branches d)).
+    { rewrite (qsum_perm _ _ _ P1), qsum_flat_map. reflexivity. }
+    assert (Hlow : qsum (ctr phi r') (branches d) - (2 # 1) * tol * mass (branches d) ==
+                   qsum (fun kb => ctr phi r' kb - (2 # 1) * tol * bprob kb) (branches d)).
+    { rewrite (qsum_minus (ctr phi r') (fun kb => (2 # 1) * tol * bprob kb)).
+      assert (X : qsum (fun kb => (2 # 1) * tol * bprob kb) (branches d) == mass (branches d) * ((2 # 1) * tol)).
+      { unfold mass. rewrite <- (qsum_scal ((2 # 1) * tol) bprob). apply qsum_ext; intros; ring. }
+      rewrite X. ring. }
+    assert (M0 : 0 <= mass (branches d)) by (apply qsum_nonneg; assumption).
+    assert (TM : tol * mass (branches d) <= tol).
+    { setoid_replace tol with (tol * 1) at 2 by ring. rewrite !(Qmult_comm tol). apply Qmult_le_compat_r; assumption. }
+    rewrite Hd1. split.
+    - apply Qle_trans with (qsum (ctr phi r') (branches d) - (2 # 1) * tol * mass (branches d)); [lra|].
+      rewrite Hlow. apply qsum_le; intros kb HI. destruct (Hsplit kb (Hb kb HI)); assumption.
+    - apply qsum_le; intros kb HI. destruct (Hsplit kb (Hb kb HI)); assumption.
+  Qed.
+
+  Lemma qn_S n : qn (S n) == qn n + 1.
+  Proof. unfold qn. rewrite Nat2Z.inj_succ. unfold Z.succ. rewrite inject_Z_plus. reflexivity. Qed.
+
+  Lemma run_event2 phi : 0 <= tol -> (forall k, 0 <= phi k <= 1) -> forall (p : prog) (d : dict) n d' n', NoDup (keys d) ->
+    (forall kb, In kb (branches d) -> 0 <= bprob kb) -> mass (branches d) <= 1 ->
+    run p d n = Ok (d', n') ->
+    qsum (ctr phi p) (branches d) - (2 # 1) * qn (count_nonunitary p) * tol <= ev phi (finalize d') <= qsum (ctr phi p) (branches d).
+  Proof.
+    intros Ht Hphi. induction p as [|i r IH]; intros d n d' n' ND Hpos Hm E.
+    - inversion E; subst. rewrite (finalize_ev _ _ apply p1 proj flipx). cbn [count_nonunitary]. unfold qn; cbn [Z.of_nat]; unfold inject_Z. split; lra.
+    - destruct i as [g qs|q c|q|qs| |]; cbn [Sim.run] in E; try discriminate; cbn [count_nonunitary].
+      + apply IH in E; [| now rewrite keys_evolve | | now rewrite mass_evolve].
+        * rewrite branches_evolve, qsum_map in E. exact E.
+        * intros kb HI. rewrite branches_evolve in HI. apply in_map_iff in HI as [kb0 [E0 HI]]. subst kb.
+          cbn [bprob fst snd]. now apply Hpos.
+      + destruct (step q (N.shiftl 1 (N.of_nat c)) d) as [d1|] eqn:E1; [|discriminate].
+        destruct (step_ok _ p1 proj flipx tol q (N.shiftl 1 (N.of_nat c)) d ND) as [d1' [E1' [ND1 _]]]. rewrite E1 in E1'; inversion E1'; subst d1'.
+        destruct (step_mass q (N.shiftl 1 (N.of_nat c)) d d1 ND E1 Hpos Hm) as [[L U] Hpos1].
+        destruct (step_event2 phi r (PMeasure q c :: r) q _ d d1 Ht ND E1 Hpos Hm) as [L2 U2].
+        { intros kb Hb. now apply split_event_measure2. }
+        apply IH in E; auto; [|lra]. rewrite qn_S. destruct E as [E3 E4]. split; lra.
+      + destruct (step q 0%N d) as [d1|] eqn:E1; [|discriminate].
+        destruct (step_ok _ p1 proj flipx tol q 0%N d ND) as [d1' [E1' [ND1 _]]]. rewrite E1 in E1'; inversion E1'; subst d1'.
+        destruct (step_mass q 0%N d d1 ND E1 Hpos Hm) as [[L U] Hpos1].
+        destruct (step_event2 phi r (PReset q :: r) q _ d d1 Ht ND E1 Hpos Hm) as [L2 U2].
+        { intros kb Hb. now apply split_event_reset2. }
+        apply IH in E; auto; [|lra]. rewrite qn_S. destruct E as [E3 E4]. split; lra.
+      + now apply IH in E.
+  Qed.
+
+  (* no ghost counter: the loss of any event is at most 2 * (#measure + #reset) * tol *)
+  Theorem simulate_event_bound_static : 0 <= tol -> forall phi, (forall k, 0 <= phi k <= 1) -> forall s0 (p : prog) out,
+    simulate apply p1 proj flipx tol s0 p = Ok out ->
+    ev phi (path p s0 0%N) - (2 # 1) * qn (count_nonunitary p) * tol <= ev phi out <= ev phi (path p s0 0%N).
+  Proof.
+    intros Ht phi Hphi s0 p out E. unfold simulate in *.
+    destruct (run p (init_dict s0) 0%nat) as [[d' n']| |] eqn:R; try discriminate.
+    cbn [res_map fst snd] in *. inversion E; subst. clear E.
+    assert (M0 : mass (branches (init_dict s0)) == 1) by (unfold mass, init_dict; cbn; ring).
+    apply (run_event2 phi Ht Hphi) in R.
+    - assert (C0 : qsum (ctr phi p) (branches (init_dict s0)) == ev phi (path p s0 0%N)).
+      { unfold init_dict, contrib; cbn [branches flat_map map app qsum fst snd]. ring. }
+      rewrite C0 in R. exact R.
+    - apply init_keys.
+    - intros kb [E|[]]; subst; cbn; lra.
+    - rewrite M0. apply Qle_refl.
+  Qed.
+
+  Theorem simulate_outcome_bound_static : 0 <= tol -> forall s0 (p : prog) out,
+    simulate apply p1 proj flipx tol s0 p = Ok out ->
+    forall k, lookup (path p s0 0%N) k - (2 # 1) * qn (count_nonunitary p) * tol <= lookup out k <= lookup (path p s0 0%N) k.
+  Proof.
+    intros Ht s0 p out E k. rewrite !lookup_ev.
+    apply (simulate_event_bound_static Ht (indic k) (indic_range k) s0 p out E).
+  Qed.
+
+  Theorem simulate_total_bound_static : 0 <= tol -> forall s0 (p : prog) out,
+    simulate apply p1 proj flipx tol s0 p = Ok out ->
+    1 - (2 # 1) * qn (count_nonunitary p) * tol <= total out <= 1.
+  Proof.
+    intros Ht s0 p out E. rewrite total_ev.
+    assert (H1 : forall k : N, 0 <= (fun _ : N => 1) k <= 1) by (intros; split; lra).
+    pose proof (simulate_event_bound_static Ht (fun _ => 1) H1 s0 p out E) as B.
+    rewrite (path_total _ _ apply p1 proj flipx) in B. exact B.
   Qed.
 End SimBound.
 
